@@ -25,6 +25,7 @@ EmptyFn == [x \in {} |-> 0]
 
 InitM == [ lst   |-> EmptyFn,          \* listing: line number -> normalised statements
            dir   |-> <<>>,             \* the direct line being executed
+           dgen  |-> 0,                \* how many direct lines have been entered
            pairs |-> {},               \* WHILE/WEND mates of the program
            dpairs |-> {},              \* ... of the direct line
            perr  |-> {},               \* compile-time errors of the program
@@ -280,11 +281,14 @@ Exec(m, p, s) ==
     [] s.k = "pzone" -> [Emit(m, Spaces(14 - (m.col % 14))) EXCEPT !.pc = Adv(p)]
     [] s.k = "pnl" -> [Emit(m, <<10>>) EXCEPT !.pc = Adv(p)]
     [] s.k = "goto" -> JumpTo(m, p, LineStart(s.n))
-    [] s.k = "gosub" -> Push(m, p, [k |-> "gosub", ret |-> Adv(p), ln |-> p.ln], LineStart(s.n))
+    [] s.k = "gosub" -> Push(m, p, [k |-> "gosub", ret |-> Adv(p), ln |-> p.ln, gen |-> m.dgen], LineStart(s.n))
     [] s.k \in {"return", "next"} /\ m.ctlx -> OutOfModel(m, "frames after error")
     [] s.k = "return" ->
          LET r == PopToGosub(m.ctl) IN
          IF ~r.found THEN Fail([m EXCEPT !.ctl = <<>>], p, Err(EReturnWithoutGosub))
+         \* a frame made by a direct line that has since been replaced: returning into it is
+         \* not defined by the manual
+         ELSE IF r.f.ln = Direct /\ r.f.gen # m.dgen THEN OutOfModel(m, "frame of an old direct line")
          ELSE [m EXCEPT !.ctl = r.ctl, !.pc = r.f.ret]
     [] s.k \in {"ongoto", "ongosub"} ->
          LET r == EvalTop(s.e, St(m))  m1 == [m EXCEPT !.dims = r.d]  sel == ToInt(r.v) IN
@@ -292,7 +296,7 @@ Exec(m, p, s) ==
          ELSE IF sel.n < 0 THEN Fail(m1, p, Err(EIllegalFn))
          ELSE IF sel.n = 0 \/ sel.n > Len(s.ns) THEN [m1 EXCEPT !.pc = Adv(p)]
          ELSE IF s.k = "ongoto" THEN JumpTo(m1, p, LineStart(s.ns[sel.n]))
-         ELSE Push(m1, p, [k |-> "gosub", ret |-> Adv(p), ln |-> p.ln], LineStart(s.ns[sel.n]))
+         ELSE Push(m1, p, [k |-> "gosub", ret |-> Adv(p), ln |-> p.ln, gen |-> m.dgen], LineStart(s.ns[sel.n]))
     [] s.k = "if" ->
          LET r == EvalTop(s.c, St(m))  m1 == [m EXCEPT !.dims = r.d] IN
          IF IsBad(r.v) THEN Fail(m1, p, r.v)
@@ -315,11 +319,12 @@ Exec(m, p, s) ==
               IF IsBad(rc.v) THEN Fail([m2 EXCEPT !.dims = rc.d], p, rc.v)
               ELSE Push([m2 EXCEPT !.dims = rc.d], p,
                         [k |-> "for", key |-> Key(s.v.l, s.v.id, s.v.sfx, <<>>), node |-> s.v,
-                         lim |-> rb.v, step |-> rc.v, body |-> Adv(p), ln |-> p.ln],
+                         lim |-> rb.v, step |-> rc.v, body |-> Adv(p), ln |-> p.ln, gen |-> m.dgen],
                         Adv(p))
     [] s.k = "next" ->
          LET r == PopToFor(m.ctl, s.any, IF s.any THEN <<>> ELSE Key(s.v.l, s.v.id, s.v.sfx, <<>>)) IN
          IF ~r.found THEN Fail([m EXCEPT !.ctl = r.ctl], p, Err(ENextWithoutFor))
+         ELSE IF r.f.ln = Direct /\ r.f.gen # m.dgen THEN OutOfModel(m, "frame of an old direct line")
          ELSE LET f == r.f
                   m1 == [m EXCEPT !.ctl = r.ctl]
                   cur == BinOp("add", Fetch(m.vars, m.deft, f.key), f.step) IN
@@ -490,7 +495,7 @@ EnterDirect(m, stmts) ==
       a == Analyze(flat, DOMAIN m.lst)
       derr == IF a.perr = {} /\ a.hasdata THEN {[code |-> EIllegalDirect, ln |-> -1]}
               ELSE {[code |-> e.code, ln |-> -1] : e \in a.perr}
-      m0 == [m EXCEPT !.resp = <<>>, !.dir = code, !.dpairs = a.pairs, !.ltr = -1] IN
+      m0 == [m EXCEPT !.resp = <<>>, !.dir = code, !.dpairs = a.pairs, !.ltr = -1, !.dgen = @ + 1] IN
   IF derr # {} THEN GoReady(Item(FreshLine(m0), [k |-> "err", errs |-> derr]))
   ELSE [m0 EXCEPT !.mode = "run", !.pc = LineStart(Direct)]
 
@@ -530,5 +535,6 @@ Apply(mm, c) ==
 Do(mm, c, fuel) == RunToWait(Apply(mm, c), fuel)
 
 \* what RUN / CLEAR / NEW must reset (C12)
-ProgState(mm) == <<mm.vars, mm.dims, mm.deft, mm.fns, mm.ctl, mm.dptr, mm.cont>>
+ProgState(mm) == <<mm.vars, mm.dims, mm.deft, mm.fns, [i \in DOMAIN mm.ctl |-> [mm.ctl[i] EXCEPT !.gen = 0]],
+                   mm.dptr, mm.cont>>
 =============================================================================
